@@ -17,11 +17,11 @@ RULE = ("full product kind x required x nullability notation (none, 3.0 nullable
 FLOOR = 0.5
 ASSUMPTIONS = ["nullable iff nullable:true on a typed non-enum schema, 'null' in a type list, a null oneOf/anyOf member, or null among enum values (DESIGN §2.4)"]
 
-KINDS = ["str", "int", "num", "bool", "date", "datetime", "uuid", "enum_str", "enum_int", "enum_str0", "enum_int0", "const", "model_ref", "enum_ref", "inline_object", "composed_object",
+KINDS = ["str", "int", "num", "bool", "date", "datetime", "uuid", "enum_str", "enum_int", "enum_str0", "enum_int0", "const", "model_ref", "enum_ref", "inline_object", "composed_object", "str_typelist1", "int_anyof1", "date_oneof1", "enum_second_use",
          ["array", "str"], ["array", "int"], ["array", "model_ref"], ["array", "date"], ["union", "int", "str"], ["union", "model_ref", "int"]]
 DEFAULTS = {"str": "dflt", "int": 3, "num": 2.5, "bool": True, "date": "2001-02-03", "datetime": "2001-02-03T04:05:06+00:00",
             "uuid": K.UUID2, "enum_str": "b", "enum_int": -2, "enum_ref": "y"}
-PARAM_OK = {"str", "int", "num", "bool", "date", "datetime", "uuid", "enum_str", "enum_int", "enum_str0", "enum_int0", "enum_ref", "array(str)", "array(int)",
+PARAM_OK = {"str_typelist1", "int_anyof1", "date_oneof1", "str", "int", "num", "bool", "date", "datetime", "uuid", "enum_str", "enum_int", "enum_str0", "enum_int0", "enum_ref", "array(str)", "array(int)",
             "union(int,str)"}
 
 
@@ -32,6 +32,8 @@ def _notations(kind):
         return out + ["oneof", "anyof", "enumnull"]
     if ks == "const":
         return out + ["oneof", "anyof", "oneof-null-first"]
+    if ks in ("str_typelist1", "int_anyof1", "date_oneof1", "enum_second_use"):
+        return out
     if ks.startswith("union"):
         return out + ["oneof"]
     return out + ["t30", "t31", "oneof", "anyof"]
@@ -41,6 +43,9 @@ def _samples(kind):
     base = kind[1] if isinstance(kind, list) and kind[0] == "nullable" else kind
     if base == "composed_object":
         return [("value", {"z": 1, "own": "o"}), ("value", {})] + ([("null", None)] if base is not kind else [])
+    alias = {"str_typelist1": "str", "int_anyof1": "int", "date_oneof1": "date", "enum_second_use": "enum_str"}
+    if isinstance(base, str) and base in alias:
+        return K.samples(alias[base])
     return K.samples(kind)
 
 
@@ -52,6 +57,11 @@ def _schema(full, comps):
     if isinstance(full, list) and full[0] == "nullable" and full[2] == "oneof-null-first":
         return {"oneOf": [{"type": "null"}, K.schema(full[1], comps)]}
     base = full[1] if isinstance(full, list) and full[0] == "nullable" else full
+    ONE = {"str_typelist1": {"type": ["string"]}, "int_anyof1": {"anyOf": [{"type": "integer"}]}, "date_oneof1": {"oneOf": [{"type": "string", "format": "date"}]},
+           # the SECOND inline enum that resolves to one generated class (same title under one parent); the first one carries a default
+           "enum_second_use": {"title": "Shared Kind", "type": "string", "enum": ["a", "b"]}}
+    if isinstance(base, str) and base in ONE:
+        return copy.deepcopy(ONE[base])
     if base == "composed_object":
         # an object that is typed AND composed with allOf (a reference plus an inline part); nullable through its type
         K.schema("model_ref", comps)
@@ -87,6 +97,8 @@ def cases(tier):
                         key = f"{ks}/{notation}/{'req' if req else 'opt'}/{'dflt' if dflt else 'nodflt'}"
                         if pos == "model":
                             comps["M"] = {"type": "object", "properties": {"p": sch, "other": {"type": "integer"}}}
+                            if ks == "enum_second_use":
+                                comps["M"]["properties"] = {"first_use": {"title": "Shared Kind", "type": "string", "enum": ["a", "b"], "default": "b"}, **comps["M"]["properties"]}
                             if req:
                                 comps["M"]["required"] = ["p"]
                             doc = gen.base_doc(comps, version=version)
